@@ -1070,6 +1070,56 @@ pub fn interpolate_poly(evaluations: &mut Inputs, inv_twiddles: &[B])
     }
 }
 
+// ---------------------------------------------------------------------------------------------------------------------
+// math/src/fft/serial.rs interpolate_poly_with_offset: network with the inverse table, permutation, then scaling of
+// coefficient t by (1/n) * (1/offset)^t
+impl Inputs {
+    // FftInputs::shift_by_series for [E] (`for d in self.iter_mut() { *d *= offset; offset *= increment; }` with offset and
+    // increment embedded through E::from - iter_mut is outside the installed Verus): ASSUMED to multiply element t by the
+    // base-field value offset * increment^t
+    #[verifier::external_body]
+    pub fn shift_by_series(&mut self, offset: B, increment: B)
+        ensures
+            final(self).v.len() == old(self).v.len(),
+            forall|t: int| 0 <= t < old(self).v.len() ==> #[trigger] final(self).v@[t] == mulb_of(old(self).v@[t], mul_b(offset, pw(increment, t as nat))),
+    { unimplemented!() }
+}
+
+//@@ source math/src/fft/serial.rs
+//@@ extract anchor="pub fn interpolate_poly_with_offset<B, E>("
+//@@ rewrite-re "assert!\(([^,]+),[^;]*\);" => "if !(\1) { must_not_panic(); }"
+//@@ rewrite "(evaluations.len() as u32).into()" => "B::from_u32(evaluations.len() as u32)"
+//@@ rewrite "evaluations.fft_in_place(inv_twiddles);" => "evaluations.fft_in_place_entry(inv_twiddles);"
+//@@ before "let domain_offset"
+//@@|    let ghost mid = evaluations.v@;
+//@@|    proof {
+//@@|        assert forall|w: B| laws() && #[trigger] tw_ok(inv_twiddles@, w, n) implies
+//@@|            (forall|t: int| 0 <= t < n ==> #[trigger] mid[t] == dft(s, w, t as nat)) by {
+//@@|            theorem_fft_is_dft(s, inv_twiddles@, w, n);
+//@@|            assert forall|t: int| 0 <= t < n implies #[trigger] mid[t] == dft(s, w, t as nat) by {
+//@@|                ax_pidx(n, t);
+//@@|                l_pidx_is_bitrev(n, pidx(n, t));
+//@@|                l_pidx_is_bitrev(n, t);
+//@@|            }
+//@@|        }
+//@@|    }
+pub fn interpolate_poly_with_offset(evaluations: &mut Inputs, inv_twiddles: &[B], domain_offset: B)
+    requires
+        is_p2(old(evaluations).v.len() as int), old(evaluations).v.len() >= 2, inv_twiddles.len() >= old(evaluations).v.len() / 2,
+        old(evaluations).v.len() <= u32::MAX,
+    ensures
+        final(evaluations).v.len() == old(evaluations).v.len(),
+        // with the table of the inverse root w, coefficient t is (sum_i v[i] * w^(i*t)) * ((1/n) * (1/offset)^t)
+        forall|w: B| laws() && #[trigger] tw_ok(inv_twiddles@, w, old(evaluations).v.len() as int) ==>
+            (forall|t: int| 0 <= t < old(evaluations).v.len() ==> #[trigger] final(evaluations).v@[t] ==
+                mulb_of(dft(old(evaluations).v@, w, t as nat),
+                    mul_b(inv_b(b_of_u32(old(evaluations).v.len() as u32)), pw(inv_b(domain_offset), t as nat)))),
+{
+    let ghost s = evaluations.v@;
+    let ghost n = evaluations.v.len() as int;
+    /*@@body*/
+}
+
 proof fn fftcore_canary_must_fail(a: E, b: E)
     ensures add_of(a, b) == add_of(b, a)
 {
